@@ -115,7 +115,7 @@ var c16Reviewed = map[string]string{
 func ruleC16R1(c *Ctx) {
 	w := &f8{c: c}
 	cts := configTypes(c)
-	c.floor("C16.R1", "configuration types with VerifyConfig", len(cts), 22)
+	c.floor("C16.R1", "configuration types with VerifyConfig", len(cts), 15)
 	nP := 0
 	report := func(owner string, P, V map[string]f8Item, vfn *ssa.Function) {
 		var keys []string
@@ -218,7 +218,7 @@ func ruleC16R1(c *Ctx) {
 	}
 	c.count("C16.R1:verifier checks", len(V))
 	report("run.Config", P, V, pcf)
-	c.floor("C16.R1", "constructor obligations", nP, 40)
+	c.floor("C16.R1", "constructor obligations", nP, 25)
 	// the PipelineArgs field mapping used above is what NewLoaderFromConfigFile builds
 	for _, m := range [][2]string{{"base/bconfig.PipelineArgs.TransformConfigs", "Transformations"}, {"base/bconfig.PipelineArgs.OutputBufferPairs", "OutputBuffersPairs"}} {
 		ok := false
@@ -493,7 +493,7 @@ func ruleC16R4(c *Ctx) {
 		}
 		walkFields("", sst, recvT)
 	}
-	c.floor("C16.R4", "sections and nested lists", n, 12)
+	c.floor("C16.R4", "sections and nested lists", n, 8)
 }
 
 // R5: implicit panics (index / slice out of range) in what a configuration file can reach while it is loaded and
